@@ -33,6 +33,8 @@ func c19Roles(p *Prog) (idx, idf, isSet *ssa.Function) {
 			idf = fn
 		case sig.Recv() != nil && bfT != nil && types.Identical(derefT(sig.Recv().Type()), bfT) && ps.Len() == 2 && rs.Len() == 1 && isInt(ps.At(0).Type()) && isInt(ps.At(1).Type()) && types.Identical(rs.At(0).Type(), types.Typ[types.Bool]):
 			isSet = fn
+		case sig.Recv() == nil && ps.Len() == 3 && rs.Len() == 1 && ps.At(0).Type().String() == "[]byte" && isInt(ps.At(1).Type()) && isInt(ps.At(2).Type()) && types.Identical(rs.At(0).Type(), types.Typ[types.Bool]):
+			isSet = fn // the bit test as a function of the bytes
 		}
 	}
 	return
@@ -74,7 +76,7 @@ func checkC19(c *Ctx) {
 		}
 		nInc++
 		facts := fl.At(st)
-		okInc := fl.K.Key(st.Val) == "(p0->"+kBF+"len + c:1)" && falseOf(facts, func(k string) bool { return strings.HasPrefix(k, kIsSetCall+"*p0, ") || strings.HasPrefix(k, kIsSetCall+"p0, ") })
+		okInc := fl.K.Key(st.Val) == "(p0->"+kBF+"len + c:1)" && falseOf(facts, func(k string) bool { return strings.HasPrefix(k, kIsSetCall+"*p0, ") || strings.HasPrefix(k, kIsSetCall+"p0, ") || strings.HasPrefix(k, kIsSetCall+"p0->"+kBF+"data, ") })
 		c.Check(okInc, "C19.2", "set: len++ only for a bit that was clear", p.InstrPos(st), "len := len+1 only under !isSet(byteIdx, bitIdx)", "increment not gated by !isSet; facts: "+join(facts.Sorted()))
 	}
 	if nInc == 0 {
